@@ -8,6 +8,7 @@ Mutants whose patch no longer applies to the current tree are skipped and listed
 import glob
 import json
 import os
+import re
 import shutil
 import subprocess
 import sys
@@ -44,7 +45,7 @@ def run(prop):
             env = dict(os.environ)
             env.update({"GRASS_REPO": dst, "VERIF_EVIDENCE_DIR": os.path.join(tmp, "evidence"), "VERIF_REPLAY_DIR": os.path.join(tmp, "replay"), "VERIF_TIER": "quick"})
             c = subprocess.run([sys.executable, os.path.join(VERIF, "check"), prop, "--tier", "quick"], env=env, stdout=subprocess.PIPE, stderr=subprocess.STDOUT, text=True)
-            fired = sorted({ln.split("[", 1)[1].split("|", 1)[0] for ln in c.stdout.splitlines() if "  [" + prop + "-" in ln and "]" in ln})
+            fired = sorted(set(re.findall(r"\[(%s-[a-z0-9]+)\|" % re.escape(prop), c.stdout)))
             ok = c.returncode == 1 and any(w in fired for w in want_rules)
             rec = {"seed": sid, "status": "caught" if ok else "MISSED", "expected_rules": want_rules, "rules_fired": fired, "exit": c.returncode}
             records.append(rec)
